@@ -209,43 +209,6 @@ func (e *Engine) setupExt() {
 		}
 		return &bytesV{arr: arr, n: BV(64, uint64(n)), cap: n}
 	}
-	// M-ws: message queues between linked websocket.Conn objects
-	type wsQ struct {
-		peer   *value
-		msgs   []tuple // (type, payload)
-		closed bool
-	}
-	x[rtPkg+".Link"] = func(e *Engine, fr *frame, a []value) value {
-		pa := a[0].(iface).v.(*value)
-		pb := a[1].(iface).v.(*value)
-		e.ws[pa] = &wsQ{peer: pb}
-		e.ws[pb] = &wsQ{peer: pa}
-		return nil
-	}
-	x[rtPkg+".CloseWrite"] = func(e *Engine, fr *frame, a []value) value {
-		pa := a[0].(iface).v.(*value)
-		e.ws[e.ws[pa].(*wsQ).peer].(*wsQ).closed = true
-		return nil
-	}
-	x["(*github.com/gorilla/websocket.Conn).WriteMessage"] = func(e *Engine, fr *frame, a []value) value {
-		q := e.ws[e.ws[a[0].(*value)].(*wsQ).peer].(*wsQ)
-		q.msgs = append(q.msgs, tuple{a[1], e.snapshot(a[2].(*bytesV))})
-		return zero(types.Universe.Lookup("error").Type())
-	}
-	x["(*github.com/gorilla/websocket.Conn).ReadMessage"] = func(e *Engine, fr *frame, a []value) value {
-		q := e.ws[a[0].(*value)].(*wsQ)
-		errT := types.Universe.Lookup("error").Type()
-		if len(q.msgs) == 0 {
-			if !q.closed {
-				e.end("unsupported", "M-ws: read would block in a sequential harness")
-			}
-			err := e.callFn(e.fn("errors", "New"), []value{constStrV("websocket: close 1006")})
-			return tuple{BV(64, 0), &bytesV{n: BV(64, 0), isNil: true, arr: &byteArr{}}, err}
-		}
-		m := q.msgs[0]
-		q.msgs = q.msgs[1:]
-		return tuple{m[0], m[1], zero(errT)}
-	}
 	x["internal/godebug.New"] = func(e *Engine, fr *frame, a []value) value { return (*value)(nil) }
 
 	// net/http models
